@@ -530,7 +530,8 @@ func (r *Message) decode(decoder Decoder) (int, error) {
 		n, err = decoder.Decode(r.bufferUnmarshal, &r.msg)
 		if errors.Is(err, message.ErrOptionsTooSmall) {
 			// increase buffer size and try again
-			r.msg.Options = make(message.Options, 0, len(r.msg.Options)*2)
+			// at least one more slot than before: a list without capacity must grow as well
+			r.msg.Options = make(message.Options, 0, max(1, len(r.msg.Options)*2))
 			continue
 		}
 		return n, err
